@@ -21,7 +21,7 @@ def build_cases(ctx, reg):
     cases += iosuite.slices2d_family(g)
     cases += iosuite.sequences_family(g, 40 if quick else 600)
     cases += iosuite.graphs_family(g, 6 if quick else 60)
-    cases += iosuite.registered(g, reg, 15 if quick else 200)
+    cases += iosuite.registered(g, reg, 15 if quick else 200, roundtrip=False)
     return cases
 
 
